@@ -3,6 +3,8 @@
 package lab
 
 import (
+	"path/filepath"
+	"strings"
 	"os"
 	"testing"
 
@@ -28,6 +30,9 @@ func TestMain(m *testing.M) {
 	st = vstat.New()
 	code := m.Run()
 	st.Flush()
+	if d := filepath.Dir(labHostsFile); strings.Contains(d, "verif-hosts") {
+		os.RemoveAll(d) // the hosts file written for this process
+	}
 	if env19 != nil && env19.dir != "" {
 		os.RemoveAll(env19.dir) // scratch directory of the C19 instances (config files, log files)
 	}
